@@ -31,6 +31,7 @@ _real = {
     'os_open': os.open, 'close': os.close, 'read': os.read, 'write': os.write, 'fstat': os.fstat, 'fsync': os.fsync,
     'ftruncate': os.ftruncate, 'lseek': os.lseek, 'rename': os.rename, 'replace': os.replace, 'remove': os.remove,
     'unlink': os.unlink, 'rmdir': os.rmdir, 'access': os.access, 'utime': os.utime, 'chmod': os.chmod,
+    'readlink': os.readlink,
 }
 FAKE_FD_BASE = 1 << 20
 
@@ -39,7 +40,7 @@ class _Node:
     __slots__ = ('kind', 'data', 'ino', 'mtime')
 
     def __init__(self, kind, ino):
-        self.kind = kind          # 'dir' | 'file'
+        self.kind = kind          # 'dir' | 'file' | 'link' (symbolic link to a regular file; data = target path text)
         self.data = bytearray() if kind == 'file' else None
         self.ino = ino
         self.mtime = 0            # logical seconds; see SimFS.touch
@@ -118,8 +119,9 @@ class SimFS:
         if self.log is not None:
             self.log.emit('os', kind, args, outcome)
 
-    def resolve(self, path):
-        """-> absolute normalised simulated path, or None if the path is outside the simulated tree."""
+    def resolve(self, path, follow=True):
+        """-> absolute normalised simulated path, or None if the path is outside the simulated tree. A symbolic link in the FINAL
+        component is followed (links to regular files only; that is all the simulator models) unless follow is False."""
         if isinstance(path, int):
             return None
         try:
@@ -134,8 +136,40 @@ class SimFS:
                 self.bump('relative_path_via_virtual_cwd')
         p = posixpath.normpath(p)
         if p == PREFIX or p.startswith(PREFIX + '/'):
+            if follow:
+                hops = 0
+                n = self.nodes.get(p)
+                while n is not None and n.kind == 'link':
+                    hops += 1
+                    if hops > 8:
+                        raise OSError(errno.ELOOP, os.strerror(errno.ELOOP), p)
+                    p = posixpath.normpath(posixpath.join(posixpath.dirname(p), n.data))
+                    n = self.nodes.get(p)
+                    self.bump('symlink_followed')
             return p
         return None
+
+    def symlink(self, p, target):
+        """Harness accessor: make p a symbolic link whose text is ``target`` (relative to p's directory, or absolute)."""
+        p = posixpath.normpath(p)
+        self.mkdirs(posixpath.dirname(p))
+        self._ino += 1
+        n = self.nodes[p] = _Node('link', self._ino)
+        n.data = target
+
+    def links(self):
+        return {p: n.data for p, n in self.nodes.items() if n.kind == 'link'}
+
+    def sim_readlink(self, path, *, dir_fd=None):
+        p = self.resolve(path, follow=False) if dir_fd is None else None
+        if p is None:
+            return _real['readlink'](path, dir_fd=dir_fd)
+        n = self.nodes.get(p)
+        if n is None:
+            self._raise_missing(p)
+        if n.kind != 'link':
+            raise OSError(errno.EINVAL, os.strerror(errno.EINVAL), p)
+        return n.data if isinstance(path, (str, os.PathLike)) and not isinstance(os.fspath(path), bytes) else os.fsencode(n.data)
 
     def _raise_missing(self, p):
         """p does not exist: ENOTDIR if some ancestor is a regular file, else ENOENT (as the kernel's path walk reports)."""
@@ -188,7 +222,7 @@ class SimFS:
         self.touch(n)
 
     def get(self, p):
-        n = self.nodes.get(posixpath.normpath(p))
+        n = self.nodes.get(self.resolve(posixpath.normpath(p)) or posixpath.normpath(p))
         return bytes(n.data) if n is not None and n.kind == 'file' else None
 
     def remove(self, p):
@@ -325,7 +359,7 @@ class SimFS:
             raise
 
     def sim_stat(self, path, *, dir_fd=None, follow_symlinks=True):
-        p = self.resolve(path) if dir_fd is None else None
+        p = self.resolve(path, follow=follow_symlinks) if dir_fd is None else None
         if p is None:
             return _real['stat'](path, dir_fd=dir_fd, follow_symlinks=follow_symlinks)
         n = self.nodes.get(p)
@@ -350,7 +384,7 @@ class SimFS:
 
     @staticmethod
     def _stat_result(n):
-        mode = (statmod.S_IFDIR | 0o755) if n.kind == 'dir' else (statmod.S_IFREG | 0o644)
+        mode = (statmod.S_IFDIR | 0o755) if n.kind == 'dir' else (statmod.S_IFLNK | 0o777) if n.kind == 'link' else (statmod.S_IFREG | 0o644)
         size = 0 if n.kind == 'dir' else len(n.data)
         return os.stat_result((mode, n.ino, 99, 1, 0, 0, size, n.mtime, n.mtime, n.mtime))
 
@@ -492,8 +526,8 @@ class SimFS:
         return raw.seek(pos, how)
 
     def _two(self, name, src, dst, src_dir_fd=None, dst_dir_fd=None):
-        a = self.resolve(src) if src_dir_fd is None else None
-        b = self.resolve(dst) if dst_dir_fd is None else None
+        a = self.resolve(src, follow=False) if src_dir_fd is None else None
+        b = self.resolve(dst, follow=False) if dst_dir_fd is None else None
         if a is None and b is None:
             return _real[name](src, dst, src_dir_fd=src_dir_fd, dst_dir_fd=dst_dir_fd)
         if a is None or b is None:
@@ -533,7 +567,7 @@ class SimFS:
         return self._two('replace', src, dst, src_dir_fd, dst_dir_fd)
 
     def sim_unlink(self, path, *, dir_fd=None):
-        p = self.resolve(path) if dir_fd is None else None
+        p = self.resolve(path, follow=False) if dir_fd is None else None
         if p is None:
             return _real['unlink'](path, dir_fd=dir_fd)
         n = self.nodes.get(p)
@@ -545,7 +579,7 @@ class SimFS:
         self._emit('unlink', p, 'ok')
 
     def sim_rmdir(self, path, *, dir_fd=None):
-        p = self.resolve(path) if dir_fd is None else None
+        p = self.resolve(path, follow=False) if dir_fd is None else None
         if p is None:
             return _real['rmdir'](path, dir_fd=dir_fd)
         n = self.nodes.get(p)
@@ -657,6 +691,7 @@ class _Mount:
         os.fstat, os.fsync, os.ftruncate, os.lseek = fs.sim_fstat, fs.sim_fsync, fs.sim_ftruncate, fs.sim_lseek
         os.rename, os.replace, os.remove, os.unlink, os.rmdir = fs.sim_rename, fs.sim_replace, fs.sim_unlink, fs.sim_unlink, fs.sim_rmdir
         os.access, os.utime, os.chmod = fs.sim_access, fs.sim_utime, fs.sim_chmod
+        os.readlink = fs.sim_readlink
         return fs
 
     def __exit__(self, *exc):
@@ -676,6 +711,7 @@ class _Mount:
         os.fstat, os.fsync, os.ftruncate, os.lseek = _real['fstat'], _real['fsync'], _real['ftruncate'], _real['lseek']
         os.rename, os.replace, os.remove, os.unlink, os.rmdir = _real['rename'], _real['replace'], _real['remove'], _real['unlink'], _real['rmdir']
         os.access, os.utime, os.chmod = _real['access'], _real['utime'], _real['chmod']
+        os.readlink = _real['readlink']
         self.fs._mounted = False
         return False
 
@@ -690,16 +726,23 @@ class _DirEntry:
             raise FileNotFoundError(errno.ENOENT, os.strerror(errno.ENOENT), self.path)
         return n
 
+    def _target(self, follow):
+        try:
+            return self._fs.nodes.get(self._fs.resolve(self._abs, follow=follow) or self._abs)
+        except OSError:
+            return None
+
     def is_dir(self, *, follow_symlinks=True):
-        n = self._fs.nodes.get(self._abs)
+        n = self._target(follow_symlinks)
         return n is not None and n.kind == 'dir'
 
     def is_file(self, *, follow_symlinks=True):
-        n = self._fs.nodes.get(self._abs)
+        n = self._target(follow_symlinks)
         return n is not None and n.kind == 'file'
 
     def is_symlink(self):
-        return False
+        n = self._fs.nodes.get(self._abs)
+        return n is not None and n.kind == 'link'
 
     def is_junction(self):
         return False
@@ -708,7 +751,10 @@ class _DirEntry:
         return self._node().ino
 
     def stat(self, *, follow_symlinks=True):
-        return SimFS._stat_result(self._node())
+        n = self._target(follow_symlinks)
+        if n is None:
+            raise FileNotFoundError(errno.ENOENT, os.strerror(errno.ENOENT), self.path)
+        return SimFS._stat_result(n)
 
     def __fspath__(self):
         return self.path
